@@ -723,6 +723,41 @@ def oracle_pages(site: Dict[str, Any], obs: Dict[str, Any], real: Dict[str, Any]
     v = oracle_linear_scaling(site, obs, exp, facts)
     if v is not None:
         return v
+    # the recipe list of every category page shows the recipes' real titles (as plain text)
+    by_rel = {tuple(d["rel"]): d for d in real["dirs"]}
+    for path, e in exp.items():
+        if e[0] != "cat":
+            continue
+        d = by_rel.get(e[2])
+        if d is None or path not in obs["pages"]:
+            continue
+        want = []
+        for nm in d["recipes"]:
+            try:
+                f = facts["recipes"].get(open(os.path.join(d["real"], nm), encoding="utf-8").read())
+            except OSError:
+                f = None
+            if f is None or f["err"] or f["title"] is None:
+                want = None
+                break
+            want.append(f["title"])
+        if want is not None and sorted(want) != sorted(x[0] for x in obs["pages"][path]["recs"]):
+            return (f"{path}: the recipe list shows {sorted(x[0] for x in obs['pages'][path]['recs'])[:4]}, the recipes' "
+                    f"titles are {sorted(want)[:4]}")
+        subs = []
+        for sn in d["subdirs"]:
+            sd = by_rel.get(tuple(d["rel"]) + (sn,))
+            if sd is not None and sd["readme"]:
+                try:
+                    rf = facts["readmes"].get(open(os.path.join(sd["real"], sd["readme"]), encoding="utf-8").read())
+                except OSError:
+                    rf = None
+                if rf is not None and rf["title"] is not None:
+                    subs.append(rf["title"])
+        shown = [x[0] for x in obs["pages"][path]["cats"]]
+        for t in subs:
+            if subs.count(t) > shown.count(t):
+                return f"{path}: the sub-category list {shown[:5]} does not show the title {t!r} of a sub-directory's readme"
     # every {..} expression of the prose (also one wrapped over two source lines) is replaced by a scaled value
     for path, e in exp.items():
         if e[0] != "rec":
@@ -1328,7 +1363,8 @@ def _fresh_hash(base: str, inp: Sequence[str], M: int) -> str:
                 "try:\n    generate_static_site(Path(sys.argv[1]), Path(sys.argv[2]), int(sys.argv[3]))\n"
                 "    print('ok')\nexcept Exception as e:\n    print('error:' + type(e).__name__)\n")
         p = subprocess.run([sys.executable, "-c", code, os.path.join(base, *inp), os.path.join(out, "o"), str(M)],
-                           capture_output=True, text=True, timeout=300, env=dict(os.environ))
+                           capture_output=True, text=True, timeout=300,
+                           env=dict(os.environ, PYTHONHASHSEED=str(1 + (hash((base, M, tuple(inp))) % 4000000000))))
         res = p.stdout.strip().splitlines()[-1] if p.stdout.strip() else "crash:" + p.stderr[-200:]
         if res != "ok":
             return res
@@ -1461,6 +1497,8 @@ def make_history_case(site: Dict[str, Any], steps: List[Dict[str, Any]], seed: i
                         viol = oracle_links(o)
                     if viol is None and "assets" in oracles:
                         viol = oracle_assets(cur, o, real_facts(cur, base))
+                    if viol is None and "pages" in oracles:
+                        viol = oracle_pages(dict(cur, M=st["M"]), o, real_facts(cur, base), facts)
                     if viol is not None and not viol.startswith("generation"):
                         viol = f"generation {k}: " + viol
                 if not st.get("reuse_out"):
@@ -1502,6 +1540,8 @@ def make_history_case(site: Dict[str, Any], steps: List[Dict[str, Any]], seed: i
         tags.append("same-rng-seed-twice")
     if any(s_.get("reuse_out") for s_ in steps):
         tags.append("same-output-directory")
+    if any(b["M"] > a["M"] and b.get("reuse_out") for a, b in zip(gens, gens[1:])):
+        tags.append("larger-M-into-same-directory")
     if any(s_["op"] == "noise" for s_ in steps):
         tags.append("noise-site-between")
     if any("hex" in s_ for s_ in steps if s_["op"] == "write"):
@@ -1662,6 +1702,41 @@ def gen_history(rng: random.Random, site: Dict[str, Any]) -> List[Dict[str, Any]
 def site_suite(cases: Optional[List[Case]] = None) -> Suite:
     return Suite(name="site", imports=IMPORTS, in_ty="site_in", out_ty="site_obs", check="check_site",
                  show="show_site", shard=3, cases=cases or [])
+
+
+def big_site_suite(cases: Optional[List[Case]] = None) -> Suite:
+    return Suite(name="site-bigM", imports=IMPORTS, in_ty="site_in", out_ty="site_obs", check="check_site_sample",
+                 show="show_site", shard=1, cases=cases or [])
+
+
+def _big_m_job(args: Tuple[int, int, str]) -> Case:
+    """A tiny tree with a recipe written for MORE THAN 256 servings (max_servings just above), which the readme and a
+    second recipe link to.  All files, the link checker and the intended-target oracle run on the whole site; of the
+    ~600 pages a sample goes to the model comparison."""
+    seed, i, which = args
+    rng = random.Random((seed * 1000003 + i) * 7 + 13)
+    native = rng.choice([257, 300, 300, 260])
+    M = native + rng.choice([0, 1])
+    big = "# Banquet stew for %d\n\nFeeds {%d} easily\n\n    %d potatoes\n" % (native, native, 2 * native)
+    other = "# Side\n\nGoes with [the stew](banquet%20stew.md) and [again](/banquet%20stew.md#top)\n\n    2 eggs\n"
+    readme = "# Big kitchen\n\nTry [the banquet stew](banquet%20stew.md) or <a href='./banquet%20stew.md?x=1'>this</a>\n"
+    src = G.D("src", [G.F("banquet stew.md", text=big), G.F("side.md", text=other), G.F("README.md", text=readme)])
+    rng.shuffle(src["ch"])
+    site = {"M": M, "input": ["src"], "profile": "valid", "base": G.D("", [src, G.D("outside", [])])}
+    facts = collect_facts(site)
+    obs, viol = run_and_judge(site, seed * 100000 + i, which, facts)
+    sample = dict(obs)
+    if "error" not in obs:
+        keep = {"index.html", "categories/index.html", "categories/side.html", "serves1/index.html",
+                "serves%d/index.html" % M, "serves1/banquet stew.html", "serves%d/banquet stew.html" % native,
+                "serves%d/banquet stew.html" % rng.randrange(2, native)}
+        sample["pages"] = {k: v for k, v in obs["pages"].items() if k in keep}
+    return Case(input={"site": site, "seed": seed * 100000 + i}, coq_in=coq_site_in(site, facts), coq_out=coq_site_obs(sample),
+                impl=obs_json(obs), violation=viol, nontrivial=True, tags=site_tags(site, obs) + ["native>256"])
+
+
+def gen_big_m_cases(seed: int, n: int, which: str) -> List[Case]:
+    return pmap(_big_m_job, [(seed, i, which) for i in range(n)])
 
 
 def alone_suite(cases: Optional[List[Case]] = None) -> Suite:
@@ -1864,6 +1939,54 @@ def _add_sources_history_job(args: Tuple[int, int]) -> Case:
 
 def gen_add_sources_history_cases(seed: int, n: int) -> List[Case]:
     return pmap(_add_sources_history_job, [(seed, i) for i in range(n)])
+
+
+def shrink_edit(rng: random.Random, text: str) -> Optional[str]:
+    """the same recipe with paragraphs of prose removed (title, serving count and recipe blocks stay)"""
+    paras = text.split("\n\n")
+    # (paragraphs with links stay: dropping a link to a local file would leave its copy of the FIRST build in the shared
+    # output directory - a legitimate left-over, not a defect)
+    keep = [paras[0]] + [p for p in paras[1:] if p.startswith("    ") or p.startswith("```") or p.startswith("#")
+                         or "](" in p or "<" in p]
+    new = "\n\n".join(keep)
+    if not new.endswith("\n"):
+        new += "\n"
+    return new if len(new) + 20 < len(text) else None
+
+
+def _rebuild_history_job(args: Tuple[int, int, str]) -> Case:
+    """build; edit recipes (quantities changed / prose deleted so that pages get SHORTER); rebuild INTO THE SAME OUTPUT
+    DIRECTORY, the same M or M + 1: content, scaling and the 1..M menus must be those of the edited tree, byte for byte
+    what a fresh process writes into an empty directory"""
+    seed, i, which = args
+    rng = random.Random((seed * 1000003 + i) * 7 + 12)
+    site = G.gen_site(rng, "valid", rng.choice(["small", "small", "medium"]))
+    if site["M"] > 3:
+        site["M"] = rng.randrange(1, 4)
+    M = site["M"]
+    recs = [(p, n) for p, n in G.walk(site["base"]) if n["k"] == "f" and "text" in n and p[0] == "src"
+            and G.is_md_name(n["name"]) and not G.is_readme_name(n["name"])]
+    g = {"op": "gen", "M": M, "order": None, "rng": rng.randrange(10 ** 6), "reuse_out": True}
+    steps: List[Dict[str, Any]] = [dict(g)]
+    rng.shuffle(recs)
+    done = 0
+    for p, n in recs:
+        new = shrink_edit(rng, n["text"]) if rng.random() < 0.6 else quantity_edit(rng, n["text"])
+        if new is None or new == n["text"]:
+            new = quantity_edit(rng, n["text"]) or shrink_edit(rng, n["text"])
+        if new is None or new == n["text"]:
+            continue
+        steps.append({"op": "write", "file": list(p), "text": new})
+        done += 1
+        if done >= 2:
+            break
+    M2 = M + rng.choice([0, 1, 1])
+    steps.append(dict(g, M=M2, rng=rng.randrange(10 ** 6)))
+    return make_history_case(site, steps, seed * 100000 + i, fresh=True, oracles=("pages",) if which == "C15" else ())
+
+
+def gen_rebuild_history_cases(seed: int, n: int, which: str) -> List[Case]:
+    return pmap(_rebuild_history_job, [(seed, i, which) for i in range(n)])
 
 
 def _noise_history_job(args: Tuple[int, int]) -> Case:
